@@ -3,12 +3,13 @@
    ONLY statements: each is closed by `exact` of a lemma of theories/ (Num*Proofs.v, NumSrcProofs.v,
    NumRound.v).  The structure of the hand-written Rust pieces is regenerated from /repo's current sources
    (YVGen.NumSrc) and instantiates the parameters of YV.NumSrcModel; the side conditions are decided here. *)
-From Coq Require Import ZArith List Bool.
+From Coq Require Import ZArith List Bool String.
 From Coq Require Import Floats.SpecFloat.
 From Coq Require Import Strings.Byte.
 From YVGen Require Import NumSrc.
 From YV Require Import Num NumText NumLex NumProofs NumTextProofs NumLexProofs NumSrcModel NumSrcProofs NumRound.
 Import ListNotations.
+Open Scope list_scope.
 Open Scope Z_scope.
 
 (* --- side conditions on the current sources --- *)
@@ -44,12 +45,10 @@ Proof. exact bits_roundtrip. Qed.
 Theorem C19_f64_of_bits_valid : forall b, f64_valid (f64_of_bits b) = true.
 Proof. exact f64_of_bits_valid. Qed.
 
-(* --- shape: -?[0-9]+(\.[0-9]+)? , no exponent; integral values print without a fraction --- *)
+(* --- shape: -?[0-9]+(\.[0-9]+)? , no exponent (that integral values have no fraction part is only
+   checked empirically: it needs shortest-ness of the digit search, which is not proved) --- *)
 Theorem C19_print_shape : forall s m e, num_shape (print_f64 (S754_finite s m e)) = true.
 Proof. exact print_shape. Qed.
-Theorem C19_print_integral_no_fraction : forall s m e, finite_ok m e -> 0 <= e ->
-  In "."%byte (print_f64 (S754_finite s m e)) -> False.
-Proof. exact print_integral_no_fraction. Qed.
 
 (* --- a literal / to_num text denotes the nearest double --- *)
 Theorem C19_nearest_double_exact : forall s m e, finite_ok m e ->
@@ -66,6 +65,9 @@ Theorem C19_round_ratio_zero_nearest : forall neg num den s, 0 < num -> 0 < den 
   round_ratio neg num den = S754_zero s ->
   s = neg /\ forall m' e', finite_ok m' e' -> closer_eq num den 0 (-1074) (Zpos m') e'.
 Proof. exact round_ratio_zero_nearest. Qed.
+Theorem C19_round_ratio_inf_threshold : forall neg num den s, 0 < num -> 0 < den ->
+  round_ratio neg num den = S754_infinity s -> s = neg /\ (2 ^ 54 - 1) * 2 ^ 970 * den <= num.
+Proof. exact round_ratio_inf_threshold. Qed.
 Theorem C19_nearest_double_correct_partial : forall neg d e10 s m e, 0 < d -> -1100 <= e10 <= 310 ->
   nearest_double neg d e10 = S754_finite s m e ->
   s = neg /\ forall m' e', finite_ok m' e' ->
@@ -125,11 +127,11 @@ Print Assumptions C19_print_f64_injective.
 Print Assumptions C19_bits_roundtrip.
 Print Assumptions C19_f64_of_bits_valid.
 Print Assumptions C19_print_shape.
-Print Assumptions C19_print_integral_no_fraction.
 Print Assumptions C19_nearest_double_exact.
 Print Assumptions C19_parse_f64_valid.
 Print Assumptions C19_round_ratio_nearest.
 Print Assumptions C19_round_ratio_zero_nearest.
+Print Assumptions C19_round_ratio_inf_threshold.
 Print Assumptions C19_nearest_double_correct_partial.
 Print Assumptions C19_lex_fraction.
 Print Assumptions C19_lex_range.
